@@ -347,6 +347,17 @@ dround_ddur(struct dt_d_s d, struct dt_ddur_s dur, bool nextp)
 			}
 		}
 		break;
+	case DT_DURWK:
+		if (d.typ != DT_YWD) {
+			/* likewise ISO week numbers, a ywd notion */
+			struct dt_d_s tmp = dt_dconv(DT_YWD, d);
+
+			if (tmp.typ == DT_YWD) {
+				tmp = dround_ddur(tmp, dur, nextp);
+				return dt_dconv(d.typ, tmp);
+			}
+		}
+		break;
 	default:
 		break;
 	}
